@@ -360,6 +360,39 @@ def d4_scatter(ctx):
               "reconstruction windows overlap: samples would be written twice", key="recon-overlap")
 
 
+def d4b_no_gather_by_destination(ctx):
+    ctx.rule("D4b", "original-channel index lists (chns) address columns only as scatter targets; gathering with them applies the inverse permutation")
+    repo = ctx.repo
+    clsq = "neuropixel.NP2Reconstructor"
+    # attributes / locals derived from the chns lists
+    derived_attrs = set()
+    for q, fi in repo.functions.items():
+        if not q.startswith(clsq + "."):
+            continue
+        for st in walk_function(fi.node):
+            if isinstance(st, ast.Assign) and ("'chns'" in src(st.value) or '"chns"' in src(st.value)) and "argsort" not in src(st.value):
+                for t in st.targets:
+                    if loc_name(t) and loc_name(t).startswith("self.") and not isinstance(t, ast.Subscript):
+                        derived_attrs.add(loc_name(t))
+    fi = repo.fn(clsq + "._reconstruct")
+    du = DefUse(fi.node)
+    n = 0
+    for sub in find(fi.node, ast.Subscript):
+        if not isinstance(sub.slice, ast.Tuple) or len(sub.slice.elts) != 2:
+            continue
+        col = sub.slice.elts[1]
+        ct = src(expand_name(du, col, sub)) if isinstance(col, ast.Name) else src(col)
+        uses = ("'chns'" in ct or '"chns"' in ct or any(a in ct for a in derived_attrs)) and "argsort" not in ct
+        if not uses:
+            continue
+        n += 1
+        ctx.check(isinstance(sub.ctx, ast.Store), fi, sub, sub, "destination channel indices are used to scatter (assignment target)",
+                  f"`{src(sub)[:80]}` GATHERS columns with the list of destination channels: that applies the permutation where its inverse is needed - the reconstructed "
+                  "binary has permuted columns for every shank map whose stacked channel order is not its own inverse", key="gather:" + norm(sub)[:60], name_free=True)
+    if n == 0:
+        raise AnalysisError("_reconstruct: no column addressing through the recorded channel lists found (reconstruction restructured)")
+
+
 def _store_keys(fi, var):
     keys = set()
     for st in walk_function(fi.node):
@@ -419,5 +452,6 @@ def run(ctx):
     ctx.run(d1_rounding)
     ctx.run(d2_tiling)
     ctx.run(d3_columns)
+    ctx.run(d4b_no_gather_by_destination)
     ctx.run(d4_scatter)
     ctx.run(d5_meta_keys)
